@@ -106,6 +106,9 @@ func runC02(c *core.Ctx) error {
 	// ---- R02.6
 	checkPackageScopeNames(c, ts, ck)
 
+	// ---- R02.7
+	checkIdentifierSafety(c, prog)
+
 	// ---- R02.4
 	return checkExpansionsTypeCheck(c)
 }
@@ -1144,4 +1147,73 @@ func packageScopeLines(ts *tmpl.Set, ck *tmpl.Checker) map[string]bool {
 		walkDefine(r, 0)
 	}
 	return out
+}
+
+// ---------------------------------------------------------------- R02.7
+
+// checkIdentifierSafety: the IR fields templates print where Go expects an identifier (the Name of a type, field,
+// variant, operation, parameter) never receive Go *type text* — the result of PrimitiveType.String(), Type.Go() or
+// Type.NamePostfix() ("net.HardwareAddr", "[]byte", "time.Time") — unless it went through an identifier synthesiser
+// (pascal & co., which end in token.IsIdentifier) or is certified by token.IsIdentifier on the dominating edge.
+func checkIdentifierSafety(c *core.Ctx, prog *core.Prog) {
+	r := c.NewRule("R02.7", "S1", "identifier-position IR fields never receive Go type text without an identifier guard", 5)
+	cfg := taint.Config{
+		NoSources:  true,
+		Guards:     map[string]bool{"go/token.IsIdentifier": true},
+		Sanitisers: map[string]bool{},
+		SourceFuncs: map[string]bool{
+			"(ogen/gen/ir.PrimitiveType).String": true,
+			"(*ogen/gen/ir.Type).Go":             true,
+		},
+		InScope: func(f *ssa.Function) bool {
+			if !core.InModule(f) {
+				return false
+			}
+			p := core.FuncPkgPath(f)
+			return p == pkgGen || p == pkgIR || p == core.Module+"/internal/naming"
+		},
+	}
+	an := taint.Run(prog, cfg)
+	r.Note("taint fixpoint (sources: PrimitiveType.String, Type.Go): %d functions, %d source reads, %d tainted fields", an.Funcs, an.Sources, len(an.Field))
+	if an.Sources == 0 {
+		r.Undecided("anchor:type-text-sources", "-", "no call of PrimitiveType.String / Type.Go found: the sources of this rule moved")
+		return
+	}
+	irp := prog.PkgBy[pkgIR]
+	if irp == nil {
+		r.Undecided("load:gen/ir", "-", "package gen/ir not loaded")
+		return
+	}
+	// identifier-position fields: fields called Name of the IR structs
+	sc := irp.Types.Scope()
+	n := 0
+	for _, tn := range sc.Names() {
+		obj, ok := sc.Lookup(tn).(*types.TypeName)
+		if !ok {
+			continue
+		}
+		st, ok := obj.Type().Underlying().(*types.Struct)
+		if !ok {
+			continue
+		}
+		for i := 0; i < st.NumFields(); i++ {
+			fv := st.Field(i)
+			if fv.Name() != "Name" {
+				continue
+			}
+			if b, ok := fv.Type().Underlying().(*types.Basic); !ok || b.Info()&types.IsString == 0 {
+				continue
+			}
+			n++
+			key := "identifier-field:ir." + tn + ".Name"
+			if f := an.Field[fv]; f != nil {
+				r.Fail(key, c.Pos(f.Pos), fmt.Sprintf("ir.%s.Name can receive Go type text that is not an identifier (a dotted or bracketed type such as net.HardwareAddr or []byte): templates print it as a field / constant / type name and goimports fails: %s", tn, f.Chain(c)))
+			} else {
+				r.Pass(fmt.Sprintf("%s: receives no unguarded Go type text", key))
+			}
+		}
+	}
+	if n == 0 {
+		r.Undecided("anchor:ir-name-fields", "-", "no string field called Name found in gen/ir")
+	}
 }
